@@ -1,3 +1,3 @@
 From Coq Require Import Extraction ExtrOcamlBasic ExtrOcamlString.
-From Bloch Require Import Sim.SimModel Sim.Qasm Sim.QasmParse Sim.EvalQ.
-Extraction "sim_model.ml" sim_init sim_run sim_step emit embed1 cx_spec gate_matrix apply1 cx_model evq_init ev_run ev_step parse_qasm op_wf.
+From Bloch Require Import Sim.SimModel Sim.Qasm Sim.QasmParse Sim.EvalQ Tracked.Tracked.
+Extraction "sim_model.ml" sim_init sim_run sim_step emit embed1 cx_spec gate_matrix apply1 cx_model evq_init ev_run ev_step parse_qasm op_wf shots_run aggregate shots_decision echo_enabled tab_total.
